@@ -1,5 +1,7 @@
 mod c02;
 mod c05;
+mod storeops;
+mod storeprops;
 mod common;
 mod world;
 
@@ -65,6 +67,11 @@ fn main() {
     match prop.as_str() {
         "C02" => run(c02::C02::new(listed_findings("C02")), &args, 3000, 60000),
         "C05" => run(c05::C05::new(), &args, 2500, 40000),
+        "C13" => run(storeprops::StoreProp::new("C13"), &args, 2500, 40000),
+        "C16" => run(storeprops::StoreProp::new("C16"), &args, 1500, 20000),
+        "C17" => run(storeprops::StoreProp::new("C17"), &args, 2000, 30000),
+        "C15" => run(storeprops::StoreProp::new("C15"), &args, 2000, 30000),
+        "C07" => run(storeprops::StoreProp::new("C07"), &args, 2000, 30000),
         _ => {
             eprintln!("usage: verif-harness <property> [--tier quick|thorough] [--seed N] [--cases N] [--out file] [--replay file]");
             std::process::exit(2)
